@@ -11,7 +11,7 @@ from ..poly import Poly, Rat
 from ..report import Ctx
 from ..variants import Variant
 from .arrdom import AArr, AMask, ArrInterp, LabelKeys
-from .common import metric_registry
+from .common import make_metric_objs, metric_registry
 from .resultrun import Tagged
 from .vennrun import Count, N, Regions, VennInterp, _rat, path_substitution, path_zero_set, run_kernel, universe_xy, universe_xy_skel
 
@@ -194,7 +194,7 @@ def check_selection(ctx: Ctx):
         holder = []
 
         def make(prefix, ridx=ridx, pidx=pidx):
-            mv = Obj(mv_cls, {"name": "M", "long_name": "M", "decreasing": False, "_metric_function": Sym("kernel:M")})
+            mv = make_metric_objs(prog, False)[0]
             ref, pred = AArr("REF", False), AArr("PRED", False)
             args = {}
             for p in mcall.call_params:
@@ -230,7 +230,7 @@ def check_selection(ctx: Ctx):
             ctx.decide("R06.5", mcall, node, construct + ":pure", "selection does not write to the caller's arrays", not bad, None, nontrivial=False)
     # no selection when an index is missing: arrays passed through uncrossed
     for cname, ridx, pidx in (("none", None, None),):
-        mv = Obj(mv_cls, {"name": "M", "long_name": "M", "decreasing": False, "_metric_function": Sym("kernel:M")})
+        mv = make_metric_objs(prog, False)[0]
         ref, pred = AArr("REF", False), AArr("PRED", False)
         args = {}
         for p in mcall.call_params:
@@ -323,7 +323,7 @@ def check_registry(ctx: Ctx):
             X, Y = masks_xy(raw=True)
             want = REF[key]
             ndim = None
-        mv = Obj(mcall.cls, {"name": rec["name"], "long_name": rec["long_name"], "decreasing": rec["decreasing"], "_metric_function": rec["kernel"]})
+        mv = make_metric_objs(prog, bool(rec["decreasing"]), rec["name"], kernel=rec["kernel"], long_name=rec["long_name"])[0]
         its = []
 
         def make(prefix, X=X, Y=Y, mv=mv, ndim=ndim):
